@@ -247,7 +247,41 @@ def run_live(ctx, queries, n):
                 failures.append({'kind': 'spec', 'what': 'non-terminal run printed control sequences or more than one table', 'payload': {'query': c.query}})
             if nframes >= 3:
                 nontrivial.add(c.query + '\0' + str(sched))
+    # correspondence with the render-loop model (Render_loop.v, C16_render_loop_shape): every frame drawn before the final
+    # one is the table of a PREFIX of the input lines, and the prefixes only grow
+    loop_checked = 0
+    for j, (job, o) in enumerate(zip(jobs, outs)):
+        c, sched, h, w, cp = job
+        if loop_checked >= (4 if n < 100 else 40):
+            break
+        if c.omode or o['rc'] != 0 or not (2 <= len(c.lines) <= 25) or h < 12:
+            continue
+        chunks = re.split(rb'(?:\x1b\[2K\x1b\[1A)*\x1b\[2K', o['out'])
+        frames = []
+        for ch in chunks:
+            ls = [norm(l) for l in ch.decode('utf8', 'replace').replace('\r', '').split('\n')]
+            while ls and ls[-1] == '':
+                ls.pop()
+            if ls:
+                frames.append(ls)
+        if len(frames) < 2:
+            continue
+        loop_checked += 1
+        data_lines = [l.encode('utf8') for l in c.lines]
+        tables = []
+        for k in range(len(data_lines) + 1):
+            wl, _o = expected_lines(c.query, b''.join(data_lines[:k]), h, None)
+            tables.append(wl)
+        pos = 0
+        for fi, fr in enumerate(frames):
+            ks = [k for k in range(pos, len(tables)) if tables[k] == fr]
+            if not ks:
+                failures.append({'kind': 'corr', 'what': 'frame %d of %d on the terminal is not the table of any prefix (>= %d lines) of the input: %r' % (fi, len(frames), pos, fr[:6]),
+                                 'payload': {'query': c.query, 'input_lines': c.lines, 'terminal': [h, w], 'schedule': [(s_[0].decode('utf8', 'replace'), s_[1]) for s_ in sched], 'frame': fr}})
+                break
+            pos = ks[0]
     cov = {
+        'render_loop_frames_checked': loop_checked,
         'evaluations': len(items), 'distinct_nontrivial': len(nontrivial),
         'rule': 'aggregate pipelines (incl. aggregate-of-aggregate, post-aggregate where/limit/total/sort, sort of records) on a pty of 1..40 rows x 60..200 columns, input split into timed bursts '
                 '(0..several refresh periods between bursts, idle gap before the first row, one 0.6 s idle checkpoint); one run in five with -o logfmt / -o format= (placeholder frames, then the rows); the captured bytes are replayed through the extracted terminal model; '
